@@ -16,6 +16,20 @@ Theorem C17_order : forall s b s' ev, send_request s b = (s', ev) ->
 Proof. exact send_request_order. Qed.
 Print Assumptions C17_order.
 
+(* the client timeout elapsing while unusable hosts are skipped (time passes inside a slow borrow_connection): the walk stops
+   right there -- the rest of the plan stays untried and NO NoHostAvailable is reported; the request times out (once a
+   connection was ever borrowed) or the timeout handler re-schedules itself *)
+Theorem C17_timeout_stops_the_walk : forall s b s' ev rest, send_request s b = (s', ev) ->
+  plan s' = rest -> rest <> [] -> fin_exc s' <> Some XNoHost \/ fin_exc s = Some XNoHost.
+Proof.
+  intros s b s' ev rest H Pr Rn.
+  destruct (walk_exc _ _ _ _ H) as [G|[(x & G & N)|(G & Q)]].
+  - destruct (fin_exc s) as [[]|] eqn:F; try (left; rewrite G; discriminate). right; reflexivity.
+  - left. rewrite G. intros E. inversion E; subst. apply N; reflexivity.
+  - exfalso. rewrite Q in Pr. apply Rn. symmetry. exact Pr.
+Qed.
+Print Assumptions C17_timeout_stops_the_walk.
+
 (* over a whole history: the plan is consumed front to back, and the hosts that got a message because the plan was
    walked (initial send, RETRY_NEXT_HOST, speculative execution, fall-through after an unusable pool) form, in the order
    sent, a subsequence of the load balancer's plan *)
@@ -48,14 +62,27 @@ Theorem C17_retry_task_needs_decision : forall c s o s' ev t, step c s o = (s', 
 Proof. exact step_queue. Qed.
 Print Assumptions C17_retry_task_needs_decision.
 
-(* NoHostAvailable is raised only by a send_request that ran off the end of the plan, and carries _errors of that moment *)
-Theorem C17_exhaustion : forall c s o s' ev errs, step c s o = (s', ev) -> fin_exc s' = Some (XNoHost errs) ->
-  fin_exc s = Some (XNoHost errs) \/ (errs = errors s' /\ plan s' = []).
+(* NoHostAvailable is raised only by a send_request that ran off the end of the plan (never by the branch that notices the
+   client timeout while walking: that one calls _on_timeout and returns).  XNoHost has no payload: NoHostAvailable.errors IS the
+   future's live _errors dict, i.e. `errors` of the current state. *)
+Theorem C17_exhaustion : forall c s o s' ev, step c s o = (s', ev) -> fin_exc s' = Some XNoHost ->
+  fin_exc s = Some XNoHost \/ plan s' = [].
 Proof. exact nohost_only_when_exhausted. Qed.
 Print Assumptions C17_exhaustion.
 
 (* every host ever mentioned -- message, attempt, executor task, _errors key (hence every NoHostAvailable.errors key) --
    was taken from the plan *)
+(* "listing every attempted host" (first page fetch): when a request that has no outcome yet fails with NoHostAvailable, every
+   host of the plan is a key of the live _errors (= NoHostAvailable.errors) right after that step, or still has something open
+   (an unanswered attempt of a speculative execution, a queued executor task) *)
+Theorem C17_exhaustion_lists_every_host : forall c lb target pl cl idem hasp maxa ks ops s evs o s' ev,
+  no_page ops = true -> is_next_page o = false ->
+  exec c (init lb target pl cl idem hasp maxa ks) ops = (s, evs) -> fin_res s = None -> fin_exc s = None ->
+  step c s o = (s', ev) -> fin_exc s' = Some XNoHost ->
+  forall h, In h (make_plan lb target) -> In h (keys (errors s')) \/ In h (open_hosts s').
+Proof. exact exhaustion_covers. Qed.
+Print Assumptions C17_exhaustion_lists_every_host.
+
 Theorem C17_errors_only_plan_hosts : forall c lb target pl cl idem hasp maxa ks ops s evs x,
   exec c (init lb target pl cl idem hasp maxa ks) ops = (s, evs) ->
   In x (hosts_of s evs) -> In x (consumed s) /\ (no_page ops = true -> In x (make_plan lb target)).
@@ -107,5 +134,5 @@ Example C17_nonvacuous :
   let s0 := init [2; 0; 1] None [(0, PHealthy); (1, PMissing); (2, PShutdown)] (Some 1) false false 0 None in
   let '(s, evs) := exec c s0 [Start; Resp 0%nat (RRetryable KReadTimeout 7); Run 0%nat] in
   plan_sends evs = [0] /\
-  fin_exc s = Some (XNoHost [(2, EShutdown); (0, EResp KReadTimeout 7); (1, EDown)]) /\ consumed s = [2; 0; 1].
+  fin_exc s = Some XNoHost /\ errors s = [(2, EShutdown); (0, EResp KReadTimeout 7); (1, EDown)] /\ consumed s = [2; 0; 1].
 Proof. vm_compute. repeat split. Qed.
